@@ -87,6 +87,9 @@ pub fn generate(scn: &dyn Scenario, rng: &mut Prng, tier: Tier) -> Spec {
     let mut spec = scn.generate(rng, tier);
     spec.generic = rng.chance(1, 4);
     spec.place = rng.below(4) as u8;
+    if scn.id() != "C19" {
+        spec.thread = *rng.pick(&[0u8, 0, 0, 0, 0, 0, 1, 2]);
+    }
     if spec.kind == Some(crate::gens::Kind::Jitter) && matches!(scn.id(), "C05" | "C12" | "C14" | "C16" | "C17") && rng.chance(1, 10) {
         // real time flies while the code under test runs: 1 ms, 0.3 s, 1.5 s or an hour per clock reading
         spec.wall_step_ms = *rng.pick(&[1u64, 300, 1_500, 3_600_000]);
@@ -112,12 +115,28 @@ pub fn execute_guarded(scn: &dyn Scenario, spec: &Spec, st: &mut Stats) -> RunEn
     if flying {
         st.count("fault:wall_clock_steps");
     }
-    let r = match catch_unwind(AssertUnwindSafe(|| scn.execute(spec, st))) {
-        Ok(r) => r,
-        Err(_) => {
-            let m = LAST_PANIC.with(|p| p.borrow().clone());
-            RunEnd::Discard(format!("HARNESS_PANIC: {}", m))
+    let body = |st: &mut Stats| -> RunEnd {
+        match catch_unwind(AssertUnwindSafe(|| scn.execute(spec, st))) {
+            Ok(r) => r,
+            Err(_) => {
+                let m = LAST_PANIC.with(|p| p.borrow().clone());
+                RunEnd::Discard(format!("HARNESS_PANIC: {}", m))
+            }
         }
+    };
+    let r = if spec.thread == 0 {
+        body(st)
+    } else {
+        // a thread that has never run anything: per-thread state of the code under test starts from scratch
+        st.count("probe:run_on_fresh_thread");
+        let mut b = std::thread::Builder::new().stack_size(64 << 20);
+        if spec.thread == 2 {
+            b = b.name("application-worker".into());
+        }
+        std::thread::scope(|sc| match b.spawn_scoped(sc, || body(st)) {
+            Ok(h) => h.join().unwrap_or_else(|_| RunEnd::Discard("HARNESS_PANIC: run thread died".into())),
+            Err(e) => RunEnd::Discard(format!("HARNESS_PANIC: cannot spawn run thread: {}", e)),
+        })
     };
     if flying {
         wallclock::set_step_ns(0);
